@@ -103,6 +103,8 @@ def finish(out: Outcome):
     write_evidence(out, 'pass')
     cov = out.evidence.get('coverage', {})
     q = cov.get('queries', {})
+    if isinstance(q, dict) and 'per_config' in q:
+        q = {'total': q.get('total')}
     print('OK property=%s tier=%s: %s obligations discharged, queries %s, solver %.1fs, wall %.1fs' % (
         out.pid, out.tier, cov.get('obligations', '?'), q, cov.get('solver_time_s', 0.0), time.time() - out.t0))
     for n in out.notes:
